@@ -6,6 +6,7 @@ CONSTANTS
   CacheTransparent = TRUE
   SerialsMemoised = TRUE
   ScopeFixed = TRUE
+  TouchInvisible = TRUE
 INVARIANTS C19_FlatStable C19_GraphStable C19_SerialsStable C19_DerivedStable
 PROPERTIES C19_SerialsNeverChange
 CHECK_DEADLOCK FALSE
